@@ -283,6 +283,12 @@ class Translator:
                 if r is not None:
                     return r
             d = dotted_name(node.func) or norm(node.func)
+            if d in ('sum', 'np.sum', 'math.fsum') and len(node.args) == 1 and isinstance(node.args[0], (ast.List, ast.Tuple)) and \
+                    not node.keywords and not any(isinstance(e, ast.Starred) for e in node.args[0].elts):
+                acc = Rat.const(0)
+                for e in node.args[0].elts:
+                    acc = acc + self.tr(e)
+                return acc
             if d in LINEAR_WRAPPERS and node.args:
                 inner = self.tr(node.args[0])
                 if self.wrappers == 'identity':
